@@ -214,7 +214,11 @@ AuxPairs == {<<1, 4>>, <<4, 5>>, <<3, 2>>, <<6, 3>>, <<5, 6>>}          \* <<ind
 StretchTriples == StretchVals \X StretchVals \X StretchVals
 FseCompute(d) ==
     LET Qm   == d.Q
-        Rp   == MEval(AuxRot(d.aux[1]))
+        \* aux index 7..9: R' is the half-turn about the k-th PRINCIPAL axis of the stretch, so that
+        \* F = Q diag(s) D_k Q^T is symmetric but indefinite (a stretch followed by a rigid 180-degree turn
+        \* about one of its own axes): its eigenvalues are NOT its principal stretches
+        Rp   == IF d.aux[1] <= 6 THEN MEval(AuxRot(d.aux[1]))
+                ELSE MEval(MMul(Qm, MMul(Diag([k \in I3 |-> IF k = d.aux[1] - 6 THEN QOne ELSE QNeg(QOne)]), MT(Qm))))
         Qp   == MEval(AuxRot(d.aux[2]))
         F    == MEval(MMul(MMul(Qm, MMul(Diag(d.s), MT(Qm))), Rp))
         smax == Max3(d.s)
@@ -310,8 +314,8 @@ Emit == (phase = "out" /\ out.kind # "pgr") => PrintT(<<(IF IsScen THEN "SCEN" E
 \* tier domains (assigned in the cfg files with  Const <- Def)
 PatsAll == 0..3
 PatsQuick == {0, 3}
-AuxQuick == {<<1, 4>>, <<4, 5>>}
-AuxThorough == {<<1, 4>>, <<4, 5>>, <<6, 3>>}
+AuxQuick == {<<1, 4>>, <<4, 5>>, <<7, 4>>, <<9, 2>>}
+AuxThorough == {<<1, 4>>, <<4, 5>>, <<6, 3>>, <<7, 4>>, <<8, 5>>, <<9, 2>>}
 \* 17 generic rotations with denominators 5, 7, 9
 GenericSample == {QuatRot(q) : q \in {x \in Quats(2, {5, 7, 9}) : x[1] = 1 /\ x[2] >= 1}}
 ThoroughRots == SmallRots \cup GenericSample
